@@ -98,6 +98,17 @@ pub fn process(
 ) -> Result<Vec<u8>, Error> {
     let mut finalized_opcode = vec![];
 
+    if let Some(counts) = op.operand_counts() {
+        if !counts.contains(&op_args.len()) {
+            bail!(
+                "{:?} takes {:?} operand(s), {} given",
+                op,
+                counts,
+                op_args.len()
+            );
+        }
+    }
+
     let mut opcode = op.info(constants).op_code;
     let mut opcode_2part = 0u16;
     let mut long_opcode = false;
